@@ -593,7 +593,7 @@ pub fn strip_dropout(spec: &NetSpec) -> NetSpec {
 }
 
 pub fn net_oracles_validate(ctx: &mut Ctx, spec: &NetSpec, net: &mut Network, xs: &Vec<Tensor>, ts: &Vec<Tensor>, tol: f32, train: bool, res: &Result<(f32, f32), String>) {
-    if is(ctx, &["C02", "C01"]) && !train && res.is_ok() && !xs.is_empty() {
+    if is(ctx, &["C02", "C01", "C11", "C17", "C16"]) && !train && res.is_ok() && !xs.is_empty() {
         // a stand-alone validate leaves the network what it was: predict is still the composition of the layers' operators
         // (no dropout mask), i.e. the prediction of the same network built without dropout
         let desc = format!("{} predict after validate on {} samples", clip(&spec.token(), 800), xs.len());
@@ -866,6 +866,14 @@ pub fn net_oracles_learn(ctx: &mut Ctx, spec: &NetSpec, net: &Network, job: &Lea
         _ => None,
     };
     let job = match &walked { Some(j) => j, None => job };
+    if is(ctx, &["C03"]) && job.val.is_none() && job.script.is_empty() && spec.builds.iter().any(|b| matches!(b, Build::Feedback { .. })) {
+        // (C03: every copy of a block layer is a parameter slot of its own — its state is its own too)
+        if let Some((_, _, Some(what))) = learn_spec(spec, job) {
+            ctx.oracle(false, "block-step-not-coupled-optimizer-step",
+                "a group's step on a feedback block is: every repetition takes the optimizer step on its own gradient sum WITH ITS OWN STATE, then every copy of a layer receives the configured accumulation of the stepped copies",
+                desc.clone(), what, "the accumulation of the stepped copies, computed from the gradient sums".into());
+        }
+    }
     if is(ctx, &["C04"]) && job.val.is_none() && job.script.is_empty() {
         if let Some((spec_loss, spec_params, coupled)) = learn_spec(spec, job) {
             if let Some(what) = coupled {
@@ -931,9 +939,15 @@ fn own_add(a: &mut Tensor, b: &Tensor) {
 
 /// what the coupled parameters of dense blocks must be after one plain-SGD group step (mean / add coupling), computed here
 /// from the parameters before the step and the gradient sums: `(top-level layer, unrolled position, tensor (0 weights, 1 bias), values)`
-fn coupled_expectation(spec: &NetSpec, twin: &Network, sum_w: &[Tensor], sum_b: &[Option<Tensor>]) -> Vec<(usize, usize, usize, Vec<f64>)> {
+fn coupled_expectation(spec: &NetSpec, twin: &Network, sum_w: &[Tensor], sum_b: &[Option<Tensor>], epoch: i32,
+    velocity: &mut std::collections::HashMap<(usize, usize, usize), Vec<f64>>) -> Vec<(usize, usize, usize, Vec<f64>)> {
     let mut out = Vec::new();
-    let lr = match &spec.opt { Some(crate::ops::scalar::OptSpec::Sgd(lr, None)) => *lr as f64, _ => return out };
+    // plain SGD, or SGD with momentum (each COPY keeps its own velocity: v = g in a step numbered 1, mu v + (1 - dampening) g later)
+    let (lr, momentum) = match &spec.opt {
+        Some(crate::ops::scalar::OptSpec::Sgd(lr, None)) if *lr != 0.0 => (*lr as f64, None),
+        Some(crate::ops::scalar::OptSpec::Sgdm(lr, mu, damp, None)) if *lr != 0.0 && *mu != 0.0 => (*lr as f64, Some((*mu as f64, *damp as f64))),
+        _ => return out,
+    };
     let blocks: Vec<&Build> = spec.builds.iter().filter(|b| matches!(b, Build::Feedback { .. } | Build::Layer(_))).collect();
     let nl = twin.layers.len();
     if blocks.len() != nl || sum_w.len() != nl { return out; }
@@ -958,7 +972,16 @@ fn coupled_expectation(spec: &NetSpec, twin: &Network, sum_w: &[Tensor], sum_b: 
                     if which >= ps.len() { ok = false; break; }
                     let g: Vec<f32> = if which == 0 { flat_any(&gw[total - 1 - pos]) } else { match &gb[total - 1 - pos] { Some(t) => flat_any(t), None => { ok = false; break; } } };
                     if g.len() != ps[which].len() { ok = false; break; }
-                    let stepped: Vec<f64> = ps[which].iter().zip(g.iter()).map(|(w, g)| *w as f64 - lr * *g as f64).collect();
+                    let dir: Vec<f64> = match momentum {
+                        None => g.iter().map(|x| *x as f64).collect(),
+                        Some((mu, damp)) => {
+                            let v_old = velocity.get(&(li, pos, which)).cloned().unwrap_or_else(|| vec![0.0; g.len()]);
+                            let v: Vec<f64> = if epoch > 1 { v_old.iter().zip(g.iter()).map(|(v, g)| mu * v + (1.0 - damp) * *g as f64).collect() } else { g.iter().map(|x| *x as f64).collect() };
+                            velocity.insert((li, pos, which), v.clone());
+                            v
+                        }
+                    };
+                    let stepped: Vec<f64> = ps[which].iter().zip(dir.iter()).map(|(w, d)| *w as f64 - lr * d).collect();
                     acc_v = Some(match acc_v { None => stepped, Some(a) => a.iter().zip(stepped.iter()).map(|(x, y)| x + y).collect() });
                 }
                 if let (true, Some(mut v)) = (ok, acc_v) {
@@ -975,6 +998,7 @@ pub fn learn_spec(spec: &NetSpec, job: &LearnJob) -> Option<(Vec<f32>, Vec<Vec<f
     let mut twin = net::build(spec).ok()?;
     net::set_all_training(&mut twin, true);
     let mut coupling_fault: Option<String> = None;
+    let mut velocity: std::collections::HashMap<(usize, usize, usize), Vec<f64>> = std::collections::HashMap::new();
     let r = net::try_run(std::panic::AssertUnwindSafe(|| {
         let mut train_loss = Vec::new();
         for _phase in 0..job.phases.max(1) {
@@ -1007,7 +1031,7 @@ pub fn learn_spec(spec: &NetSpec, job: &LearnJob) -> Option<(Vec<f32>, Vec<Vec<f
                 }
                 loss_epoch += losses.iter().sum::<f32>() / losses.len() as f32;
                 // exactly one optimizer step, step number = epoch index, on the summed gradients
-                let expect = coupled_expectation(spec, &twin, &sum_w, &sum_b);
+                let expect = coupled_expectation(spec, &twin, &sum_w, &sum_b, epoch, &mut velocity);
                 twin.verif_update(epoch, sum_w, sum_b);
                 for (li, pos, which, v) in expect.iter() {
                     if let Layer::Feedback(f) = &twin.layers[*li] {
